@@ -278,6 +278,9 @@ func checkC01(c *Ctx, r *Report) {
 			}
 		}, true,
 		"every receiver for which VisitMethod yields metadata is appended to the controller")
+
+	ruleHelperShape(c, r, "C01.e", helperShape{Fn: "gast.IsFuncDeclReceiverForStruct", AllowedCalls: []string{"builtin.len"}, MustFields: []string{"Recv", "Name"},
+		Why: "a method belongs to a controller iff its receiver type (T or *T) is named exactly like the struct"})
 }
 
 // checkPathItemOwnership (C01.b): path items of the DOCUMENT are looked up and written
